@@ -84,6 +84,10 @@ def law_layout(ctx, n, ck):
             e = env.Env(list(levels), list(times), release_node=rel, loop_node=loop)
         else:
             e = env.Env(list(levels), list(times), curves, rel, loop)
+        if ctx.choose('interp_first', 2):
+            # the same object used for IEnvGen first: the two layouts are cached separately
+            e._interpolation_format()
+            data['replay']['interp_first'] = 1
         fmt = e._envgen_format()
     if len(fmt) != 1:
         raise Violation(f'single-channel envelope produced {len(fmt)} channels', None, data)
@@ -190,11 +194,19 @@ def law_constructor(ctx, which):
                 e = E.xyc([list(pts[i]) + [cs[i]] for i in order])
                 chk(e, [y0, y1, y2], [x1 - x0, x2 - x1], ['sin', 'exp'])
             _eq(ctx, e.offset, x0, f'{which}: offset is the first time', data)
+        elif which == 'xyc-jump':
+            # two control points at the same time (a vertical jump) keep the order in which they were given
+            x0, x1, x2 = P('x0'), P('x1'), P('x2')
+            y0, y1, y2, y3 = P('y0'), P('y1'), P('y2'), P('y3')
+            ctx.assume(z3.And(x0.e < x1.e, x1.e < x2.e))
+            data['replay']['names'] = ['x0', 'x1', 'x2', 'y0', 'y1', 'y2', 'y3']
+            e = E.xyc([[x0, y0, 'lin'], [x1, y1, 'lin'], [x1, y2, 'lin'], [x2, y3, 'lin']])
+            chk(e, [y0, y1, y2, y3], [x1 - x0, 0, x2 - x1], 'lin')
     return {'law': 'constructor', 'which': which}
 
 
 CUTOFF_CURVES = ['lin', 'exp', 'exponential', 'sin', 'linear']
-CONSTRUCTORS = ['triangle', 'sine', 'perc', 'linen', 'adsr', 'dadsr', 'asr', 'cutoff', 'step', 'pairs', 'xyc']
+CONSTRUCTORS = ['triangle', 'sine', 'perc', 'linen', 'adsr', 'dadsr', 'asr', 'cutoff', 'step', 'pairs', 'xyc', 'xyc-jump']
 
 
 # ------------------------------------------------------------------ (C) client-side evaluation
@@ -346,7 +358,12 @@ def replay(rec):
             cl = ['lin']
         else:
             e = E(levels, times, curves, rec['rel'], rec['loop'])
-        a = e._envgen_format()[0]
+        if rec.get('interp_first'):
+            e._interpolation_format()
+        try:
+            a = e._envgen_format()[0]
+        except Exception as ex:
+            return f'_envgen_format raises {type(ex).__name__}: {ex}'
         exp = [levels[0], n, -99 if rec['rel'] is None else rec['rel'], -99 if rec['loop'] is None else rec['loop']]
         for i in range(n):
             c = cl[i % len(cl)]
@@ -391,6 +408,13 @@ def replay(rec):
                 L, T = [g('l0'), g('l0'), g('l1')], [g('t0'), g('t1')]
                 if e.release_node != (0 if rec.get('rel') else None):
                     return f'step: release node {e.release_node}'
+            elif w == 'xyc-jump':
+                xs = sorted([g('x0', 0.0), g('x1', 1.0), g('x2', 2.0)])
+                ys = [g('y0'), g('y1', 2.0), g('y2', 0.5), g('y3')]
+                if ys[1] == ys[2]:
+                    ys[2] = ys[1] - 1.0        # any two different levels at the jump show the order
+                e = E.xyc([[xs[0], ys[0], 'lin'], [xs[1], ys[1], 'lin'], [xs[1], ys[2], 'lin'], [xs[2], ys[3], 'lin']])
+                L, T = ys, [xs[1] - xs[0], 0.0, xs[2] - xs[1]]
             else:
                 xs = sorted([g('x0', 0.0), g('x1', 1.0), g('x2', 2.0)])
                 ys = [g('y0'), g('y1'), g('y2')]
